@@ -99,6 +99,19 @@ def random_chooser(seed):
     return choose
 
 
+def sticky_chooser(seed, stay=0.8):
+    """Random schedules for line-level points: keep running the current thread
+    with probability `stay` (long runs with few, randomly placed preemptions)."""
+    rng = random.Random(seed)
+
+    def choose(sched, enabled):
+        me = sched.me().name
+        if me in enabled and rng.random() < stay:
+            return me
+        return enabled[rng.randrange(len(enabled))]
+    return choose
+
+
 def follow_chooser(schedule):
     """Follow a list of thread names; after it ends, run the first enabled."""
     pos = [0]
